@@ -26,14 +26,14 @@ theorem C03_shown_is_authentic_and_intended (accts : List Acct) (groups : List (
       ∃ a n, (a, n) ∈ s.submitted ∧ n.id = x.id ∧ n.payload = x.payload ∧ r ∈ intended s a n ∧ OriginOf a n x.peer x.participant :=
   shown_is_genuine accts groups hw acts ha
 
-/-- Exactly once, with receipts (fault-free part): for every script of at most 100 messages, every schedule and every
+/-- Exactly once, with receipts (fault-free part): for every configuration whose groups list each member once, every script of at most 100 messages, every schedule and every
     restart at quiescence, whenever the server's queues are empty every submitted message has been shown exactly once to
     each intended recipient and the sender's application holds exactly one delivery receipt from each of them; and as long
     as the queues are not empty the server can act.  The statement with the two server faults is kept visible below
     (`C03_duplicate_shown_once`, `C03_corrupt_triggers_retry`: the local reactions, for every state) — a conservation law
     that also counts duplicated and damaged copies is not proved (partial). -/
 theorem C03_exactly_once_with_receipts_partial (accts : List Acct) (groups : List (Nat × List Acct)) (hw : WFConfig accts groups)
-    (acts : List Act) (ha : AllowedRun (initSys accts groups) acts = true) (hf : NoFault acts = true) (hn : sendCount acts ≤ 100) :
+    (hnd : ∀ g ∈ groups, g.2.Nodup) (acts : List Act) (ha : AllowedRun (initSys accts groups) acts = true) (hf : NoFault acts = true) (hn : sendCount acts ≤ 100) :
     let s := run (initSys accts groups) acts
     (quiescent s = true →
       ∀ a n, (a, n) ∈ s.submitted → ∀ r, r ∈ intended s a n →
@@ -42,15 +42,16 @@ theorem C03_exactly_once_with_receipts_partial (accts : List Acct) (groups : Lis
           e.1 == n.id && e.2.2.2 == RType.delivery && (e.2.2.1 == some r || (e.2.2.1.isNone && e.2.1 == Dest.user r)))).length = 1) ∧
     (quiescent s = false → ∃ a, Allowed s (.process a) = true ∨ Allowed s (.deliver a .none) = true) := by
   intro s
-  have hi := tokInv_run accts groups hw acts ha hf hn
-  exact ⟨fun hq => settled_exactly_once s hi (quiescent_settled s hi hq), not_quiescent_enabled s⟩
+  have hi := tokInv_run accts groups hw hnd acts ha hf hn
+  exact ⟨fun hq => settled_exactly_once s hi (quiescent_settled s hi hq),
+         fun h => not_quiescent_enabled s (queueKeys_run accts groups acts) h⟩
 
 /-- every (message, recipient) pair has exactly one token at every moment of a fault-free run: nothing is lost or
     multiplied on the way (the invariant behind the previous theorem) -/
 theorem C03_token_conservation (accts : List Acct) (groups : List (Nat × List Acct)) (hw : WFConfig accts groups)
-    (acts : List Act) (ha : AllowedRun (initSys accts groups) acts = true) (hf : NoFault acts = true) (hn : sendCount acts ≤ 100) :
+    (hnd : ∀ g ∈ groups, g.2.Nodup) (acts : List Act) (ha : AllowedRun (initSys accts groups) acts = true) (hf : NoFault acts = true) (hn : sendCount acts ≤ 100) :
     conserved (run (initSys accts groups) acts) = true := by
-  have h := tokInv_run accts groups hw acts ha hf hn
+  have h := tokInv_run accts groups hw hnd acts ha hf hn
   simp only [tokInv, Bool.and_eq_true] at h
   exact h.1.1.1.1.1.1.1.1.1.1
 
